@@ -121,5 +121,5 @@ Proof. reflexivity. Qed.
 Example C02_ex_innerprod_sp : impl_innerprod_sp_dense 0 Z.add Z.mul (mkSp [2; 3]%nat [[1; 2]; [0; 1]]%nat [5; 7]) (mkDense [2; 3]%nat [1; 2; 3; 4; 5; 6]) = 51.
 Proof. reflexivity. Qed.
 Example C02_ex_ttv_k : impl_ttv_k1 0 Z.add Z.mul (mkK [2; 3] [[[1; 0]; [2; 1]]; [[1; 1]; [0; 2]; [3; 0]]]) 1 [1; -1; 2]
-                       = mkK [14; -6] [[[1; 0]; [2; 1]]].
+                       = mkK [14; -3] [[[1; 0]; [2; 1]]].
 Proof. reflexivity. Qed.
